@@ -61,6 +61,18 @@ Theorem C14_hash_injective : forall h1 h2, key32 h1 -> key32 h2 ->
   handle_hash_word h1 = handle_hash_word h2 -> h1 = h2.
 Proof. exact handle_hash_inj. Qed.
 
+(** `==` on the four handle types is structural (derived on the untyped handles and the version newtypes,
+    delegated to the inner untyped handle by the typed ones; translated anchor), i.e. it is equality of
+    the (key, version) pair the model uses: handles of distinct entities - which differ in that pair, C08 -
+    compare unequal, and equal handles are the same pair, hence hash equally (the hash word is a function
+    of the pair).  The harness asserts the same on the implementation for every handle against every
+    handle issued so far (`conv`). *)
+Theorem C14_eq_is_equality_of_the_bit_pair : handle_eq_is_structural = true.
+Proof. reflexivity. Qed.
+
+Theorem C14_equal_handles_hash_equally : forall h1 h2 : handle, h1 = h2 -> handle_hash_word h1 = handle_hash_word h2.
+Proof. intros h1 h2 ->. reflexivity. Qed.
+
 Check C14_pack_unpack : forall slot id, slot < 2^24 -> id < 2^8 ->
   key_index (pack_key slot id) = slot /\ key_arch_id (pack_key slot id) = id.
 Check C14_unpack_pack : forall key, key < 2^32 -> pack_key (key_index key) (key_arch_id key) = key.
@@ -79,3 +91,5 @@ Print Assumptions C14_select_some.
 Print Assumptions C14_select_none.
 Print Assumptions C14_select_unique.
 Print Assumptions C14_hash_injective.
+Print Assumptions C14_eq_is_equality_of_the_bit_pair.
+Print Assumptions C14_equal_handles_hash_equally.
